@@ -73,10 +73,11 @@ func (wrapper EpochsHooksWrapper) AfterEpochEnd(
 				}
 			}
 			taskInfo, err := wrapper.keeper.GetTaskInfo(ctx, strconv.FormatUint(taskID, 10), taskAddr)
-			if err != nil {
+			if err != nil || taskInfo == nil {
 				ctx.Logger().Error("Failed to update task result statistics,GetTaskInfo call failed!", "task result", taskAddr, "error", err)
-				// Handle the error gracefully, continue to the next
-				// continue
+				// Handle the error gracefully, continue to the next: without the task there is
+				// nothing to update, and this runs inside BeginBlock where a panic halts the chain
+				continue
 			}
 			// the non-signers are the operators opted in at task creation that did not sign; an
 			// operator that signed without having been opted in is not a non-signer
